@@ -176,6 +176,13 @@ class TLSUnit(MethodUnit):
                 return Builtin("MemoryBIO.write_eof", lambda ip: st.put("InBIO", "$eof", obj.t, z3.BoolVal(True)))
             if attr == "read":
                 return Builtin("MemoryBIO.read", lambda ip: Sym(st.fresh("leftover", z3.StringSort()), BYTES))
+            if attr == "pending":
+                # how much undecrypted input the BIO holds is OpenSSL's business: an arbitrary non-negative amount
+                n_ = st.fresh("inbio_pending", z3.IntSort())
+                st.assume(n_ >= 0)
+                return Sym(n_, INT)
+            if attr == "eof":
+                return Sym(st.get("InBIO", "$eof", obj.t), BOOL)
         if isinstance(obj, Sym) and obj.ty is SO:
             return Builtin(f"SSLObject.{attr}", lambda ip, *a: self.ssl_call(ip, attr, a))
         if isinstance(obj, Sym) and obj.ty is TS:
@@ -396,6 +403,7 @@ class PumpCaller(TLSUnit):
         super().on_entry(ip, pre, a)
         self.pump_calls = []
         self.pump_result = None
+        self.transport_waits = 0
 
     def ssl_call(self, ip, name, args):
         raise Unsupported("an SSL call outside the pump")
@@ -403,6 +411,10 @@ class PumpCaller(TLSUnit):
     def model_getattr(self, ip, obj, attr):
         if isinstance(obj, Sym) and obj.ty is SO:
             return Builtin(f"SSLObject.{attr}", lambda ip, *a: self.direct_ssl(ip, attr, a))
+        if isinstance(obj, Sym) and obj.ty is TS and attr == "receive":
+            # a wait for transport input outside the pump: only the SSL object knows whether it needs input (it may hold
+            # decrypted data that no BIO shows), and it says so by SSLWantReadError inside the pump
+            self.transport_waits = getattr(self, "transport_waits", 0) + 1
         return super().model_getattr(ip, obj, attr)
 
     def direct_ssl(self, ip, attr, a):
@@ -431,6 +443,10 @@ class ReceiveUnit(PumpCaller):
         nm = "TLSStream.receive"
         mb = self.max_bytes.t
         name = exc.pycls.__name__ if exc is not None and exc.pycls is not None else None
+        if self.transport_waits:
+            ip.ctx.fail(f"{nm}/post:waits_for_transport_input_only_inside_the_pump_when_the_SSL_object_asked_for_it", "post", f"receive() itself asks the transport for input ({self.transport_waits} time(s)) although the SSL object may still hold decrypted data")
+        else:
+            ip.ctx.oblige(f"{nm}/post:waits_for_transport_input_only_inside_the_pump_when_the_SSL_object_asked_for_it", z3.BoolVal(True), "post")
         if name == "ValueError":
             ip.ctx.oblige(f"{nm}/post:ValueError_only_for_max_bytes_below_one_and_nothing_is_read", z3.And(mb < 1, z3.BoolVal(not self.pump_calls and not self.direct_calls)), "post")
             return
